@@ -28,7 +28,7 @@ ELEM_NAMES = {'elem', 'element', 'root', 'e', 'el', 'child', 'parent', 'document
               'target', 'source', 'item', 'node'}
 ELEM_CALLS = {'set', 'append', 'remove', 'insert', 'clear', 'extend', 'addnext', 'addprevious', 'SubElement'}
 XNODE_NAMES = {'node', 'attr', 'root_node', 'document_node', 'element_node', 'child', 'parent', 'elem_node', 'text_node'}
-TOKEN_FILES = re.compile(r'elementpath/(xpath_tokens/|xpath1/_|xpath2/_|xpath30/_|xpath31/_|tdop\.py)')
+TOKEN_FILES = re.compile(r'elementpath/(xpath_tokens/|xpath1/_|xpath2/_|xpath30/_|xpath31/_|tdop\.py|xpath_selectors\.py)')
 PARSE_TIME = re.compile(r'^(nud|led|__init__|__new__|__set_name__|parse_|register|unregister|duplicate|build|create_|nullary|prefix|'
                         r'infix|postfix|method|axis|function|constructor|literal|wrapper|bind|as_name)')
 
